@@ -2,7 +2,7 @@
 from .modcommon import run_mod
 
 PROOF = "Props/C02.v"
-RUN_FILES = ["Run/ModuleRun.v", "Run/BuilderRun.v", "Run/CodeMapRun.v"]
+RUN_FILES = ["Run/ModuleRun.v", "Run/BuilderRun.v", "Run/CodeMapRun.v", "Run/DwarfRun.v"]
 CORR_NAME = "parseM / gc / emitM models vs. real parse, gc, emit_wasm on fixtures and generated modules"
 ASSUMPTIONS = [
     "Model/ParseM.v, EmitM.v, GC.v are hand-written executable models of src/module/*.rs and src/passes/*.rs; attribute plumbing (Gen/Attrs.v), operator tables and visited-reference tables (Gen/Ops.v) are regenerated from the source; the models are tied to the code by replaying every (module, configuration) case on them and comparing the emitted section stream (this run)",
@@ -13,12 +13,13 @@ ASSUMPTIONS = [
 
 def correspondence(ctx, thorough, search):
     """no pass / GC: the module-level run; builder-made functions: the C15 run; edit API: the C18 run; emission with
-    code-transform preservation (unchanged, GC, inserted instructions): the C11 run.  From each, the model
+    code-transform preservation (unchanged, GC, inserted instructions): the C11 run; emission with DWARF generation on well-formed
+    debug sections (unchanged, GC, inserted instructions): the C10 run.  From each, the model
     disagreements and the oracle classes tagged C02 (panic, undecodable or invalid output)."""
-    from . import c15, c18, c11
+    from . import c15, c18, c11, c10
     r = run_mod(ctx, thorough, search, "C02")
     parts = {"module": r["coverage"]}
-    for name, mod in (("builder", c15), ("edits", c18), ("code_transform", c11)):
+    for name, mod in (("builder", c15), ("edits", c18), ("code_transform", c11), ("dwarf", c10)):
         x = mod.correspondence(ctx, thorough, search, prop="C02", sub="_" + name)
         r["disagreements"] += [dict(d, harness=name) for d in x["disagreements"]]
         r["oracle_violations"] += x["oracle_violations"]
